@@ -58,33 +58,52 @@ def generate(kind, tier, seed, miri=False):
 
 
 def build(cdir, flavor="release"):
+    """returns (list of binaries, list of (bin name, error text) that failed to build).
+    The corpus is one package with one bin per shard, built with --keep-going so that a shard
+    the modified tree can no longer compile does not take the others down."""
     name = os.path.basename(cdir)
-    crate = "gluecorpus" if name.startswith("corpus") else "gluehist"
+    corpus = name.startswith("corpus")
     tdir = os.path.join(cdir, "target")
     if flavor == "release":
-        cmd = ["cargo", "build", "--offline", "--release"]
-        b = os.path.join(tdir, "release", crate)
+        cmd = ["cargo", "build", "--offline", "--release", "--keep-going"]
+        bdir = os.path.join(tdir, "release")
     elif flavor == "asan":
-        cmd = ["cargo", "+nightly", "build", "--offline", "--release", "--no-default-features", "--target", "x86_64-unknown-linux-gnu"]
-        b = os.path.join(tdir, "x86_64-unknown-linux-gnu", "release", crate)
+        cmd = ["cargo", "+nightly", "build", "--offline", "--release", "--keep-going", "--no-default-features", "--target", "x86_64-unknown-linux-gnu"]
+        bdir = os.path.join(tdir, "x86_64-unknown-linux-gnu", "release")
     else:
         raise ValueError(flavor)
     env = {"RUSTFLAGS": "-Zsanitizer=address -Cforce-frame-pointers=yes"} if flavor == "asan" else None
+    names = bin_names(cdir)
+    for n in names:      # a stale binary from an earlier tree must not be mistaken for a fresh one
+        p = os.path.join(bdir, n)
+        if os.path.exists(p):
+            os.rename(p, p + ".prev")
     r = common.run(cmd, cwd=cdir, env=common.env_with(env), timeout=3600)
-    if r["timed_out"] or r["rc"] != 0:
+    if r["timed_out"]:
+        raise Inconclusive("glue build timed out (%s)" % flavor)
+    built, failed = [], []
+    for n in names:
+        p = os.path.join(bdir, n)
+        if os.path.exists(p):
+            built.append(p)
+        elif r["rc"] == 0 and os.path.exists(p + ".prev"):
+            os.rename(p + ".prev", p)      # cargo found it fresh and did not relink
+            built.append(p)
+        else:
+            failed.append((n, r["err"][-3000:]))
+    if not built:
         raise Inconclusive("glue build failed (%s): %s" % (flavor, r["err"][-5000:]))
-    return b
+    return built, failed
 
 
-def miri_stub(cdir):
-    """build under cargo miri once, return info for direct miri invocations"""
+def bin_names(cdir):
     name = os.path.basename(cdir)
-    crate = "gluecorpus" if name.startswith("corpus") else "gluehist"
-    r = common.run(["cargo", "+nightly", "miri", "run", "--offline", "--", "__none__", "0", "0", "__none__"], cwd=cdir,
-                   env=common.env_with({"MIRIFLAGS": rtrun.MIRIFLAGS}), timeout=3600)
-    stub = os.path.join(cdir, "target", "miri", "x86_64-unknown-linux-gnu", "debug", crate)
-    if not os.path.exists(stub):
-        raise Inconclusive("miri build of %s failed: %s" % (name, r["err"][-3000:]))
+    if name.startswith("corpus"):
+        return sorted(f[:-3] for f in os.listdir(os.path.join(cdir, "src", "bin")) if f.endswith(".rs"))
+    return ["gluehist"]
+
+
+def _stub_info(cdir, stub):
     with open(stub) as f:
         j = json.load(f)["RunWith"]
     args = [a for a in j["args"] if not a.startswith("--error-format") and not a.startswith("--json")]
@@ -99,6 +118,30 @@ def miri_stub(cdir):
     cenv["MIRI_CWD"] = cwd
     cenv["LD_LIBRARY_PATH"] = os.path.join(tc, "lib")
     return dict(miri=os.path.join(tc, "bin", "miri"), sysroot=sysroot, args=args, env=cenv, cwd=cwd)
+
+
+def miri_stubs(cdir, limit=None):
+    """build under cargo miri once per bin, return infos for direct miri invocations"""
+    infos = []
+    names = bin_names(cdir)
+    if limit:
+        names = names[:limit]
+    for n in names:
+        stub = os.path.join(cdir, "target", "miri", "x86_64-unknown-linux-gnu", "debug", n)
+        if os.path.exists(stub):
+            os.remove(stub)
+        binarg = ["--bin", n] if len(bin_names(cdir)) > 1 else []
+        r = common.run(["cargo", "+nightly", "miri", "run", "--offline"] + binarg + ["--", "__none__", "0", "0", "__none__"], cwd=cdir,
+                       env=common.env_with({"MIRIFLAGS": rtrun.MIRIFLAGS}), timeout=3600)
+        if os.path.exists(stub):
+            infos.append(_stub_info(cdir, stub))
+    if not infos:
+        raise Inconclusive("miri build of %s failed: %s" % (os.path.basename(cdir), r["err"][-3000:]))
+    return infos
+
+
+def miri_stub(cdir):
+    return miri_stubs(cdir)[0]
 
 
 def run_bin(chk, cmd, part, accept, timeout=1800, env=None, cwd=None, miri_info=None, miri_flags=""):
